@@ -75,7 +75,7 @@ JudgeRun(obs) ==
                   \cup { StripLead(n) : n \in ToSet(W[j].aliases) }
   IN
      { [property |-> "C10", clause |-> "Inside", sig |-> "outside-output-directory", expected |-> obs.out, observed |-> W[j].path]
-         : j \in { j \in idx : Len(W[j].rel) > 0 /\ W[j].rel[1] = "@outside" } }
+         : j \in { j \in idx : (W[j].isstub \/ W[j].isapi) /\ Len(W[j].rel) > 0 /\ W[j].rel[1] = "@outside" } }     \* stub files and the inventory (a scratch file elsewhere is neither)
   \cup { [property |-> "C10", clause |-> "Spells", sig |-> "directory:" \o W[j].kind, expected |-> ToString(W[j].pymodule), observed |-> ToString(dirOf(j))]
          : j \in { j \in stubs : W[j].parsed /\ dirOf(j) # W[j].pymodule } }
   \cup { [property |-> "C10", clause |-> "Base", sig |-> "basename:" \o W[j].kind, expected |-> ToString(bases(j)), observed |-> W[j].base]
